@@ -304,6 +304,8 @@ class LocationToFailAllocNode
         actualAllocNumber_++;
         return actualAllocNumber_ == allocNumberToFail_;
       }
+      if (file_)
+        return false;
       if (allocationNumber == allocNumberToFail_)
         return true;
       return false;
